@@ -18,21 +18,28 @@ SCALARS = {
     "Author": {"id": "int", "name": "str"},
     "Post": {"id": "int", "title": "str", "rating": "int"},
     "Comment": {"id": "int", "body": "str", "post_id": "int"},
+    "Label": {"id": "int", "name": "str"},
+    "Kind": {"id": "int", "name": "str"},
 }
-TABLE = {"Author": "author", "Post": "post", "Comment": "comment"}
+TABLE = {"Author": "author", "Post": "post", "Comment": "comment", "Label": "label",
+         "Kind": "kind"}
 # rel key -> (fk column on the root row, target model)
 TO_ONE = {
-    "Post": {"author": ("author_id", "Author")},
+    # Post.tag -> Label and Comment.tag -> Kind: one relationship key, two models, two tables
+    "Post": {"author": ("author_id", "Author"), "tag": ("tag_id", "Label")},
     "Comment": {"post": ("post_id", "Post"), "writer": ("writer_id", "Author"),
-                "co_writer": ("co_writer_id", "Author")},
-    "Author": {},
+                "co_writer": ("co_writer_id", "Author"), "tag": ("tag_id", "Kind")},
+    "Author": {}, "Label": {}, "Kind": {},
 }
 # rel key -> (target model, fk column on the target row pointing back)
 TO_MANY = {
     "Author": {"posts": ("Post", "author_id"), "comments": ("Comment", "writer_id")},
     "Post": {"comments": ("Comment", "post_id")},
-    "Comment": {},
+    "Comment": {}, "Label": {}, "Kind": {},
 }
+# many-to-many (Django side): accessor -> (target model, accessor back, column index of the
+# root's id in a PostEditors pair [post_id, author_id])
+M2M = {"Author": {"edited": ("Post", "editors", 1)}, "Post": {"editors": ("Author", "edited", 0)}}
 NAMES = ["ann", "bob", "cy", "dee", "a b", "a  b"]
 TITLES = ["alpha", "beta", "gamma", "delta"]
 BODIES = ["nice", "cool", "meh", "wow"]
@@ -152,6 +159,19 @@ def gen_template(rng, model, allow_nav=True, allow_coll=True, want_nav=False, an
         # lambda whose owner is a two-step to-many path: posts/comments/any(c: ...)
         parts.append({"k": "coll2", "rels": ["posts", "comments"], "q": "any",
                       "a": gen_scalar(rng, "Comment", 1)})
+    if allow_coll2 and model in M2M and rng.random() < 0.2:
+        # collection reached through a many-to-many relation; the body may navigate back
+        # through the same relation (b/editors/name eq 'x')
+        rel = sorted(M2M[model])[0]
+        tgt, back, _ = M2M[model][rel]
+        t = {"k": "m2m", "rel": rel}
+        if rng.random() < 0.6:
+            t["back"] = back
+            t["f"] = "name" if model == "Author" else "title"
+            t["v"] = rng.choice(STR_VALUES[t["f"]])
+        else:
+            t["a"] = gen_scalar(rng, tgt, 1, allow_fn=False)
+        parts.append(t)
     if allow_coll and rng.random() < 0.25:
         c = gen_coll(rng, model)
         if c and c["q"] == "all" and not allow_all:
@@ -205,6 +225,10 @@ def render(t, prefix=""):
         return "(%s) %s (%s)" % (render(t["a"], prefix), k, render(t["b"], prefix))
     if k == "nav":
         return "%s%s/%s %s %s" % (prefix, "/".join(t["path"]), t["f"], t["op"], _lit(t["v"]))
+    if k == "m2m":
+        if "back" in t:
+            return "%s%s/any(b: b/%s/%s eq %s)" % (prefix, t["rel"], t["back"], t["f"], _lit(t["v"]))
+        return "%s%s/any(b: %s)" % (prefix, t["rel"], render(t["a"], "b/"))
     if k == "coll2":
         return "%s%s/any(c: %s)" % (prefix, "/".join(t["rels"]), render(t["a"], "c/"))
     if k == "coll":
@@ -291,6 +315,20 @@ def evaluate(t, row, db, model):
                 return False
             m, r = tgt, nxt[0]
         return OPS[t["op"]](r[t["f"]], t["v"])
+    if k == "m2m":
+        tgt, back, col = M2M[model][t["rel"]]
+        pairs = db.get("PostEditors", [])
+        members = [x for x in db[tgt] if any(p[col] == row["id"] and p[1 - col] == x["id"]
+                                             for p in pairs)]
+        if "back" not in t:
+            return any(evaluate(t["a"], x, db, tgt) for x in members)
+        # body navigates back through the relation: some related row of the member matches
+        for x in members:
+            for y in db[model]:
+                if any(p[col] == y["id"] and p[1 - col] == x["id"] for p in pairs) \
+                        and y[t["f"]] == t["v"]:
+                    return True
+        return False
     if k == "coll2":
         m, members = model, [row]
         for rel in t["rels"]:
@@ -314,17 +352,24 @@ def evaluate(t, row, db, model):
 def gen_data(rng):
     na = rng.randint(2, 4)
     authors = [{"id": i + 1, "name": rng.choice(NAMES)} for i in range(na)]
+    labels = [{"id": i + 1, "name": rng.choice(NAMES)} for i in range(rng.randint(1, 3))]
+    kinds = [{"id": i + 1, "name": rng.choice(NAMES)} for i in range(rng.randint(1, 3))]
     npo = rng.randint(3, 6)
     posts = [{"id": i + 1, "title": rng.choice(TITLES), "rating": rng.randint(0, 6),
-              "author_id": rng.choice([None] + [a["id"] for a in authors] * 2)}
+              "author_id": rng.choice([None] + [a["id"] for a in authors] * 2),
+              "tag_id": rng.choice([None] + [x["id"] for x in labels] * 2)}
              for i in range(npo)]
     nc = rng.randint(3, 8)
     comments = [{"id": i + 1, "body": rng.choice(BODIES),
                  "post_id": rng.choice([p["id"] for p in posts]),
                  "writer_id": rng.choice([None] + [a["id"] for a in authors] * 2),
-                 "co_writer_id": rng.choice([None] + [a["id"] for a in authors] * 2)}
+                 "co_writer_id": rng.choice([None] + [a["id"] for a in authors] * 2),
+                 "tag_id": rng.choice([None] + [x["id"] for x in kinds] * 2)}
                 for i in range(nc)]
-    return {"Author": authors, "Post": posts, "Comment": comments}
+    pairs = sorted({(rng.choice(posts)["id"], rng.choice(authors)["id"])
+                    for _ in range(rng.randint(0, 6))})
+    return {"Author": authors, "Post": posts, "Comment": comments, "Label": labels,
+            "Kind": kinds, "PostEditors": [list(p) for p in pairs]}
 
 
 # ---------------------------------------------------------------- structure helpers
@@ -368,6 +413,11 @@ def shape_of(t):
         if k == "str":
             lits.append(x["s"])
             return (k, x["fn"], x["f"])
+        if k == "m2m":
+            if "back" in x:
+                lits.append(x["v"])
+                return (k, x["rel"], x["back"], x["f"])
+            return (k, x["rel"], walk(x["a"]))
         if k == "coll2":
             return (k, tuple(x["rels"]), x["q"], walk(x["a"]))
         if k == "coll":
@@ -403,6 +453,8 @@ def vary_literals(rng, t):
                         x["v"] = v[x["n"]:]
                 else:
                     x["v"] = v.upper() if x["fn"] == "toupper" else v
+        elif k == "m2m" and "back" in x:
+            x["v"] = rng.choice(STR_VALUES[x["f"]])
         elif k == "in":
             pool = STR_VALUES.get(x["f"]) if isinstance(x["vs"][0], str) else list(range(0, 7))
             x["vs"] = sorted(rng.sample(pool, min(len(x["vs"]), len(pool))))
